@@ -100,7 +100,7 @@ def random_case(rng, tier):
         schedule.append(action)
     return {'program': program, 'schedule': schedule, 'medium': rng.choice(persist.MEDIA),
             'loader': rng.choice(['default', 'default', 'custom']), 'with_listener': rng.random() < 0.3,
-            'opts': {'listener': False, 'cleanups': 0}}
+            'save_while_entering': rng.random() < 0.25, 'opts': {'listener': False, 'cleanups': 0}}
 
 
 def shrink(case):
@@ -199,6 +199,12 @@ def run(case):
         result.counters[f'kind:{case["program"].get("kind", "process")}'] += 1
         roundtrip(proc, 'created')
         engine.entered_hook = lambda p, frm, to: roundtrip(p, f'entered:{to}')
+        if case.get('save_while_entering'):
+            # a checkpoint written while a transition is in flight (ENTERING_STATE: the old state has been left, the new one is
+            # not in place yet): it, too, must come back as it was saved
+            hook = plumpy.base.state_machine.StateEventHook.ENTERING_STATE
+            proc.add_state_event_callback(hook, lambda p, _hook, state: roundtrip(p, f'entering:{state.LABEL.value}')
+                                          if p is proc else None)
         original_after = engine.after_handle
 
         def after_handle(loop):
